@@ -221,6 +221,10 @@ func newGrammar(quick bool) *grammar {
 	enc := encMsgs(many)
 	g.extra = append(g.extra, caseB{Val: enc, Desc: "300 canonical messages"}, caseB{Val: enc[:len(enc)/2], Desc: "300 canonical messages cut in half"},
 		caseB{Val: append(append([]byte{}, enc...), 0x21), Desc: "300 canonical messages + 1 trailing byte"})
+	// long cookies whose header announces far more than present (a bound that is merely super-linear in the length lets these through)
+	filler := []byte(strings.Repeat("\x80", 1500))
+	g.extra = append(g.extra, caseB{Val: append([]byte{0xdc, 0xff, 0xff}, filler...), Desc: "array16(65535) + 1500 x fixmap(0)"},
+		caseB{Val: append([]byte{0xdd, 0x00, 0x0f, 0x42, 0x40}, filler...), Desc: "array32(1000000) + 1500 x fixmap(0)"})
 	// the same key used by flash messages and old input, in both orders
 	same := []msg{{Key: "A", Value: "flash-1", Level: 0x41}, {Key: "A", Value: "old-1", Level: 0x42, Old: true}, {Key: "A", Value: "flash-2", Level: 0x43}, {Key: "B", Value: "old-2", Old: true, Level: 0x44}, {Key: "B", Value: "flash-3", Level: 0x45}}
 	g.extra = append(g.extra, caseB{Val: encMsgs(same), Desc: "5 canonical messages sharing keys across kinds"})
@@ -289,7 +293,9 @@ func (s sizeCase) value() []byte {
 
 func sizeCases(quick bool) []sizeCase {
 	// 0x09090909 is the smallest array32 count whose four bytes may all travel in a Cookie header (HTAB)
-	ns := []uint64{1 << 20, 1 << 24, 1 << 26, 0x09090909, 1 << 28, 0x21212121, 1<<31 - 1, 1 << 31, 1<<32 - 1}
+	// (sizes are kept away from the children's 2 GiB address-space limit: 2^22 elements = 168 MB survive,
+	// 2^26 elements = 2.7 GB cannot be allocated, so the outcome does not depend on the address-space layout)
+	ns := []uint64{1 << 20, 1 << 22, 1 << 26, 0x09090909, 1 << 28, 0x21212121, 1<<31 - 1, 1 << 31, 1<<32 - 1}
 	els := []string{"none", "one-valid-map", "nil", "fixmap(0)", "half-a-map"}
 	if quick {
 		ns = []uint64{1 << 20, 1 << 26, 0x09090909, 1<<32 - 1}
